@@ -13,7 +13,7 @@ for d in sorted(glob.glob(os.path.join(root, 'seeded', '*'))):
     if os.path.exists(mf):
         meta = json.load(open(mf))
         exp = [x.split(': ', 1)[1].split(' ')[0] for x in meta.get('detected_by', []) if ': ' in x]
-        cases.append({'name': 'seed-' + meta['id'], 'property': meta['property'], 'patch_file': os.path.join(d, 'patch.diff'), 'expect': exp})
+        cases.append({'name': 'seed-' + meta['id'], 'property': meta['property'], 'patch_file': os.path.join(d, 'patch.diff'), 'expect': exp, 'known_miss': meta.get('missed')})
 ok = bad = 0
 for c in cases:
     if flt and flt not in c['name']:
@@ -46,6 +46,8 @@ for c in cases:
                 bad += 1; print(f"FALSE-ALARM {c['name']} [{c['property']}] rc={r.returncode} failed={failed[:4]}\n   " + '\n   '.join(r.stdout.splitlines()[-3:]))
             continue
         hit = r.returncode == 1 and 'VIOLATION' in r.stdout and (not c.get('expect') or any(any(e in f for f in failed) for e in c['expect']))
+        if c.get('known_miss') and not hit:
+            print(f"known-miss {c['name']} [{c['property']}]: {c['known_miss'][:120]}"); continue
         if hit:
             ok += 1; print(f"caught  {c['name']} [{c['property']}] -> {', '.join(failed)[:200]}")
         else:
